@@ -118,8 +118,29 @@ def runScript (sc : Script) : String :=
     ++ " ndef=" ++ (match r.2.ndef with | some d => toHex d | none => "none")
     ++ " mac=" ++ (if r.2.useMac then "1" else "0")
 
+/-! `cache <op> ...`: the NDEF cache of `Tag`; ops `n:<fetch|none>`, `a:<t|f|e>`, `t:<t|f|e>`, `f:<t|f|e>` -/
+def parseCOp (tok : String) : Option TagCache.COp :=
+  let out : String → Option (Py Bool) := fun v =>
+    if v = "t" then some (.ok true) else if v = "f" then some (.ok false) else if v = "e" then some (.error (.tagCmd 0)) else none
+  match tok.splitOn ":" with
+  | ["n", f] => if f = "none" then some (.ndef none) else (parseHex f).map fun d => .ndef (some d)
+  | ["a", v] => (out v).map .auth
+  | ["t", v] => (out v).map .protect
+  | ["f", v] => (out v).map .format
+  | _ => none
+
+def showCRes (r : TagCache.CRes) : String :=
+  (match r.value with
+   | .ok none => "none"
+   | .ok (some d) => toHex d
+   | .error e => "exc:" ++ e.name) ++ (if r.fetched then "/f" else "/c")
+
 def handle (line : String) : String :=
   match line.splitOn " " with
+  | "cache" :: toks =>
+    match toks.mapM parseCOp with
+    | some ops => " ".intercalate ((TagCache.crun ops none).1.map showCRes)
+    | none => "bad-op"
   | "hist" :: toks =>
     match parseScript toks {} with
     | some sc => runScript sc
